@@ -166,7 +166,7 @@ func runC10(r *Run) {
 			map[string]condMatch{"transfer-returned-true": boolRet, "escrow-balance-check": tokenCmp("Amount", true), "coin-balance-check": coinEq("Amount")}},
 		{"(" + erc20K + ".Keeper).convertCoinNativeERC20",
 			[]evSpec{bankEv("SendCoinsFromAccountToModule", 2, 3, "Coin"), evmEv("transfer", "Coin", true), bankEv("BurnCoins", 1, 2, "Coin"), approvalEv},
-			map[string]condMatch{"transfer-returned-true": boolRet, "token-balance-check": tokenCmp("Coin", false)}},
+			map[string]condMatch{"transfer-returned-true": boolRet, "token-balance-check": tokenCmp("Coin", false), "escrow-balance-check": tokenCmp("Coin", true)}},
 	}
 	for _, sp := range specs {
 		fn, ok := P.FnOK(sp.id)
@@ -182,6 +182,13 @@ func runC10(r *Run) {
 		}
 		for gname, g := range sp.guards {
 			requireGuard(r, "R1", fnID(fn)+"#guard/"+gname, fn, g, nil, isSuccessExit, "success only over the passing edge", "the conversion can succeed without the "+gname+" post-condition: a token contract that misreports or under-delivers would not be caught")
+		}
+		if strings.HasSuffix(sp.id, "convertCoinNativeERC20") {
+			// the coins are destroyed only once the escrow is known to have paid exactly the amount: a token that charges
+			// the sender something on top (and reports every balance truthfully) otherwise leaves fewer tokens escrowed
+			// than coins outstanding
+			isBurn := isCallMatching(func(ci CallInfo) bool { return ci.Name == "BurnCoins" })
+			requireGuard(r, "R1", fnID(fn)+"#escrow-verified-before-burn", fn, sp.guards["escrow-balance-check"], nil, isBurn, "BurnCoins reachable only after the escrow comparison passed", "the escrowed coins can be burned before (or without) the comparison of the module's token balance before and after the transfer: a token contract that takes more from the sender than it gives the receiver drains the escrow below the coin supply")
 		}
 		if strings.HasSuffix(sp.id, "convertERC20NativeToken") {
 			isMint := isCallMatching(func(ci CallInfo) bool { return ci.Name == "MintCoins" })
@@ -506,6 +513,48 @@ func runC10(r *Run) {
 			r.OK("R13", "amount-handling packages#no-BigIntMut", "", fmt.Sprintf("%d functions, none takes the mutable number out of an amount", nFn))
 		}
 		r.Floor("R13", "functions of the amount-handling packages", nFn, 300)
+	}
+	r.Rule("R14", "FLOW.automatic-conversion-is-bounded-by-the-packet + TABLE.genesis-duplicates-by-decoded-address: (a) the conversion that runs automatically on an IBC receive converts what the packet delivered — the coin of the MsgConvertCoin built in OnRecvPacket derives from the packet's own amount (GetReceivedCoin) and not from a balance read: the receiver is chosen by the remote sender, and a channel's escrow account is an ordinary, unblocked account, so 'the receiver's whole balance' lets one unit sent to the escrow address convert the entire escrow and strand every outstanding voucher; (b) the erc20 genesis recognises a duplicated contract by its decoded address (a map keyed by common.Address), not by the address string as spelled")
+	if rp, ok := P.FnOK("(" + erc20K + ".Keeper).OnRecvPacket"); ok {
+		nMsg := 0
+		eachCall(rp, func(ci CallInfo) {
+			if ci.Name != "NewMsgConvertCoin" {
+				return
+			}
+			nMsg++
+			sl := backSlice(argN(ci.Instr, 0))
+			fromBalance := sl.HasCall(func(g CallInfo) bool { return g.Name == "GetBalance" || g.Name == "GetAllBalances" || g.Name == "SpendableCoins" })
+			fromPacket := sl.HasCall(func(g CallInfo) bool { return g.Name == "GetReceivedCoin" })
+			r.Check(fromPacket && !fromBalance, "R14", fnID(rp)+"#converts-the-received-amount", P.Pos(instrPos(ci.Instr)), "the converted coin is the packet's coin",
+				"OnRecvPacket converts the receiver's whole balance of the denomination, not the received amount; the receiver is named by the remote sender and may be a channel escrow account (not a module account, not blocked)")
+		})
+		r.Floor("R14", "MsgConvertCoin built in OnRecvPacket", nMsg, 1)
+	} else {
+		r.Bad("R14", "anchor/erc20 OnRecvPacket", "", "not found")
+	}
+	if gv, ok := P.FnOK("(x/erc20/types.GenesisState).Validate"); ok && gv.Synthetic == "" {
+		okKey, nAddr := true, 0
+		eachInstr(gv, func(in ssa.Instruction) {
+			lk, ok := in.(*ssa.Lookup)
+			if !ok {
+				return
+			}
+			mt, isMap := lk.X.Type().Underlying().(*types.Map)
+			if !isMap {
+				return
+			}
+			sl := backSlice(lk.Index)
+			if namedName(mt.Key()) == "Address" && sl.HasCall(func(g CallInfo) bool { return g.Name == "GetERC20Contract" || g.Name == "HexToAddress" }) {
+				nAddr++
+			}
+			if sl.HasField("TokenPair", "Erc20Address") && namedName(mt.Key()) != "Address" {
+				okKey = false
+			}
+		})
+		r.Check(okKey && nAddr >= 1, "R14", fnID(gv)+"#contracts-by-decoded-address", P.Pos(fnPos(gv)), "the duplicate-contract test is keyed by common.Address",
+			"the erc20 genesis validation looks a pair's contract up by the address string as spelled (or not at all): the same contract in checksum case and lower case passes as two contracts, InitGenesis stores two pairs for it and coins of one denomination redeem the other's escrow")
+	} else {
+		r.Bad("R14", "anchor/erc20 GenesisState.Validate", "", "not found")
 	}
 	r.Rule("R6", "PATH+FLOW.hook-guards: in PostTxProcessing the payout (MintCoins / CallEVM burn / SendCoinsFromModuleToAccount) is reachable only over the passing edges of: hook enabled (EnableErc20, EnableEVMHook), event name == Transfer, positive amount, registered pair found, recipient topic == ModuleAddress, pair.Enabled; the coin amount derives from the event data, the denom from the pair, the payee from topic 1, the burned contract is the log's address")
 	if fn, ok := P.FnOK("(" + erc20K + ".Keeper).PostTxProcessing"); ok {
